@@ -1,4 +1,6 @@
 """C11 - MVDR, LCMV and Wiener beamformers satisfy their constraints and optimality."""
+import inspect
+
 import numpy as np
 
 from .. import bf_util as U
@@ -11,6 +13,7 @@ THEOREMS = [
     'PbBss.C11.mvdr_distortionless',
     'PbBss.C11.mvdr_optimal',
     'PbBss.C11.getMvdrVector_spec',
+    'PbBss.C11.mvdrStack_spec',
     'PbBss.C11.lcmv_constraints',
     'PbBss.C11.lcmv_gram_posDef',
     'PbBss.C11.getLcmvVector_spec',
@@ -97,7 +100,7 @@ def corr(ctx):
         spy['A'], spy['B'], spy['X'] = np.array(A), np.array(B), np.array(out)
         return out
 
-    for i in range(ctx.n(40, 600)):
+    for i in range(ctx.n(120, 1200)):
         D, F, K = _dims(rng)
         layout = str(rng.choice(['D', 'FD', 'KFD', 'KFD-KFDD', 'LKFD']))
         lead_n = {'D': (), 'FD': (F,), 'KFD': (F,), 'KFD-KFDD': (K, F), 'LKFD': (F,)}[layout]
@@ -116,9 +119,23 @@ def corr(ctx):
             continue
         finally:
             bf.solve = orig_solve
+        if np.shape(w) != atf.shape or np.shape(spy.get('X', ()))[:-1] != np.broadcast_shapes(atf.shape, noise.shape[:-1]):
+            ctx.corr('get_mvdr_vector', False, f'result shape {np.shape(w)} for steering vectors {atf.shape} (layout {layout})',
+                     {'atf': atf, 'noise': noise})
+            continue
+        # contract of the external solver, re-checked on what the real call received and returned: A x = b
+        res = np.max(np.abs(spy['A'] @ spy['X'] - spy['B']), axis=(-1, -2))
+        bound = 1e-12 * (np.linalg.norm(spy['A'], axis=(-1, -2)) * np.linalg.norm(spy['X'], axis=(-1, -2)) + 1e-300)
+        ctx.corr('contract:np.linalg.solve', bool(np.all(res <= bound)), f'residual {float(np.max(res / bound)):.3g} x bound',
+                 {'A': spy['A'], 'B': spy['B']})
         nz = np.broadcast_to(noise, lead_a + (D, D))
         sa = np.broadcast_to(spy['A'], lead_a + (D, D))
         sx = np.broadcast_to(spy['X'][..., 0], lead_a + (D,))
+        if layout in ('FD', 'KFD') and atf.size <= 400:
+            # the whole stack in one model call: source/bin indexing and the broadcast of the noise PSD are the model's
+            a3 = atf.reshape((-1, F, D))
+            add(f'mvdrstack {a3.shape[0]} {F} {D} {cbits(a3)} {cbits(noise)}',
+                ('get_mvdr_vector[stack]', w, rt(cmax), {'atf': atf, 'noise': noise}))
         idxs = U.slices(lead_a)
         if len(idxs) > 6:
             idxs = [idxs[j] for j in rng.choice(len(idxs), 6, replace=False)]
@@ -132,7 +149,7 @@ def corr(ctx):
                 'steering_kind': akind, 'cond_max': cmax, 'non_hermitian_input': nh})
 
     # ---- get_lcmv_vector
-    for i in range(ctx.n(30, 400)):
+    for i in range(ctx.n(100, 800)):
         D, F, K = _dims(rng)
         K = min(K, D)
         F = min(F, 6)
@@ -162,7 +179,7 @@ def corr(ctx):
                  {'atf': A, 'r': r, 'noise': noise[f]}))
 
     # ---- Souden / WMWF with an explicit reference channel, leading axes
-    for i in range(ctx.n(40, 600)):
+    for i in range(ctx.n(120, 1200)):
         D, F, K = _dims(rng)
         F = min(F, 6)
         lead = U.lead_shape(rng) + (F,)
@@ -170,11 +187,18 @@ def corr(ctx):
         target, tkind = U.psd_target(rng, lead, D)
         ref = int(rng.integers(D))
         mu = float(rng.choice([0.0, 1.0, 100.0, rng.uniform(0, 100), 10 ** rng.uniform(-3, 2)]))
+        use_default_mu = i % 7 == 3
+        if use_default_mu:      # tuning default read by introspection and handed to the model explicitly
+            mu = float(inspect.signature(bf.get_wmwf_vector).parameters['distortion_weight'].default)
+            ctx.count('corr-wmwf-default-distortion-weight')
         ctx.count(f'corr-souden-wmwf-target-{tkind}')
         ctx.count(f'corr-souden-wmwf-leading-axes-{len(lead) - 1}')
         try:
             ws = bf.get_mvdr_vector_souden(target.copy(), noise.copy(), ref_channel=ref)
-            ww = bf.get_wmwf_vector(target.copy(), noise.copy(), reference_channel=ref, distortion_weight=mu)
+            if use_default_mu:
+                ww = bf.get_wmwf_vector(target.copy(), noise.copy(), reference_channel=ref)
+            else:
+                ww = bf.get_wmwf_vector(target.copy(), noise.copy(), reference_channel=ref, distortion_weight=mu)
         except Exception as e:  # noqa
             ctx.corr('get_mvdr_vector_souden/get_wmwf_vector', False, f'raised {type(e).__name__}: {e}',
                      {'target': target, 'noise': noise})
@@ -199,7 +223,7 @@ def corr(ctx):
 
     # ---- reference channel selection (discrete: exact, ties within rounding counted)
     lines, metas = [], []
-    for i in range(ctx.n(40, 600)):
+    for i in range(ctx.n(160, 1600)):
         D, F, K = _dims(rng)
         noise, cmax = U.hpd_stack(rng, (F,), D)
         target, tkind = U.psd_target(rng, (F,), D)
@@ -423,7 +447,7 @@ def reference_channel_maximises_snr(target, noise, mu):
 # ----------------------------------------------------------------------------- search
 def search(ctx):
     rng = ctx.rng
-    n = ctx.n(120, 2500)
+    n = ctx.n(400, 4000)
     for i in range(n):
         if ctx.out_of_time():
             break
